@@ -19,7 +19,7 @@ var (
 	verbSufs  = []string{"get", "cancel", "v", "x1"}
 	// values for string captures: every documented path character class,
 	// single characters, unicode letters, and words colliding with literals
-	strVals = []string{"x", "ab", "v1", "bk", "sh", "q", "it", "é", "a.b", "a-b", "~", "a!b", "$&'", "(a)", "*", "a+b", "a,b", "a;b", "k=v", "@me", "1", "true", "0", "ü1", "get", "Z_9"}
+	strVals = []string{"x", "ab", "v1", "bk", "sh", "q", "it", "é", "a.b", "a-b", "~", "a!b", "$&'", "(a)", "*", "a+b", "a,b", "a;b", "k=v", "@me", "1", "true", "0", "ü1", "get", "Z_9", ".", "..", "...", ".a", "ß", "½"}
 )
 
 var typVals = map[protoreflect.Kind][]string{
